@@ -4,7 +4,7 @@ From Coq Require Import Permutation Lia Bool.
 From Verif Require Import Base.Prelude Base.Str Base.Float Base.GoVal
   Schema.Regex Schema.Units Schema.Syntax Schema.Ops Schema.Wf Schema.Perm
   Proofs.C04Inv Proofs.C12Order Proofs.C12Schema Proofs.C12Value Proofs.C12Main
-  Proofs.C12ResultBase Proofs.C12ResultUnser Proofs.C12ResultSer.
+  Proofs.C12ResultBase Proofs.C12ResultUnser Proofs.C12ResultSer Proofs.C12ResultWf.
 Open Scope string_scope.
 
 (* ---------- public vocabulary ---------- *)
@@ -41,10 +41,23 @@ Proof.
   exact (ser_result words pu Ub f e e' s s' v v' He Hnd Hs Hv Hwf Hk r r' H1 H2).
 Qed.
 
+(* the verdict half with well-formedness of the first description only *)
+Lemma c12_order_verdict_one_side : forall f e e' s s' v v',
+  perm_env e e' -> nodup_env e = true -> perm_schema s s' -> perm_val v v' ->
+  wf_schema e s = true -> no_key_collision v = true ->
+  is_ok (unser words pu f e s v) = is_ok (unser words pu f e' s' v') /\
+  is_ok (validate words pu f e s v) = is_ok (validate words pu f e' s' v') /\
+  is_ok (serialize words pu f e s v) = is_ok (serialize words pu f e' s' v') /\
+  is_ok (compat words pu f e s v) = is_ok (compat words pu f e' s' v').
+Proof.
+  intros f e e' s s' v v' He Hnd Hs Hv Hwf Hnc.
+  exact (c12_order_verdict words pu f e e' s s' v v' He Hnd Hs Hv Hwf (perm_wf_schema e e' s s' He Hnd Hs Hwf) Hnc).
+Qed.
+
 (* verdict AND results, both sides at once *)
 Lemma c12_order_independent (Ub : option units -> bool) : forall f e e' s s' v v',
   perm_env e e' -> nodup_env e = true -> perm_schema s s' -> perm_val v v' ->
-  wf_schema e s = true -> wf_schema e' s' = true -> no_key_collision v = true ->
+  wf_schema e s = true -> no_key_collision v = true ->
   map_key_units Ub e s = true -> defaults_distinct Ub (e_or e) -> keys_distinct Ub v ->
   (is_ok (unser words pu f e s v) = is_ok (unser words pu f e' s' v') /\
    is_ok (validate words pu f e s v) = is_ok (validate words pu f e' s' v') /\
@@ -53,7 +66,8 @@ Lemma c12_order_independent (Ub : option units -> bool) : forall f e e' s s' v v
   (forall r r', unser words pu f e s v = Ok r -> unser words pu f e' s' v' = Ok r' -> perm_val r r') /\
   (forall r r', serialize words pu f e s v = Ok r -> serialize words pu f e' s' v' = Ok r' -> perm_val r r').
 Proof.
-  intros f e e' s s' v v' He Hnd Hs Hv Hwf Hwf' Hnc Hwu Hof Hk.
+  intros f e e' s s' v v' He Hnd Hs Hv Hwf Hnc Hwu Hof Hk.
+  pose proof (perm_wf_schema e e' s s' He Hnd Hs Hwf) as Hwf'.
   split; [exact (c12_order_verdict words pu f e e' s s' v v' He Hnd Hs Hv Hwf Hwf' Hnc)|].
   split; intros r r' H1 H2.
   - exact (c12_unser_result Ub f e e' s s' v v' r r' He Hnd Hs Hv Hwf Hwu Hof Hk H1 H2).
